@@ -57,17 +57,17 @@ func init() {
 			"cause = errors.Cause chain or errors.Is"},
 		Flavours: releaseThenGo126,
 		Required: []string{"cut/k=0", "cut/in-header", "cut/k=32", "cut/in-body", "readerr/alone", "readerr/with-data", "writefault/in-header", "writefault/at-32", "writefault/in-body",
-			"writefault/eager", "writefault/transient", "writefault/body>32KiB", "cut/big-frame>1MiB", "corrupt/hsize!=32", "corrupt/bsize>=2^63", "corrupt/bsize-huge", "corrupt/bsize-beyond-stream", "corrupt/complete-frame-ok", "random/short", "random/bitflip"},
+			"writefault/eager", "writefault/transient", "writefault/body>32KiB", "cut/big-frame>1MiB", "cut/std-reader", "corrupt/hsize!=32", "corrupt/bsize>=2^63", "corrupt/bsize-huge", "corrupt/bsize-beyond-stream", "corrupt/complete-frame-ok", "random/short", "random/bitflip"},
 		Families: func(c *mon.Config) []mon.Family {
 			nc := c07Corpus(c)
 			return []mon.Family{
-				{Name: "cuts", N: nc, Run: c07Cuts},
+				{Name: "cuts", Env: 1, N: nc, Run: c07Cuts},
 				{Name: "read-errors", N: nc, Run: c07ReadErrors},
-				{Name: "write-faults", N: nc, Run: c07WriteFaults},
-				{Name: "big-frames", N: 4 * len(c07Kinds), Run: c07BigFrames},
+				{Name: "write-faults", Env: 1, N: nc, Run: c07WriteFaults},
+				{Name: "big-frames", Env: 1, N: 4 * len(c07Kinds), Run: c07BigFrames},
 				{Name: "write-faults-big", N: 3 * len(c07Kinds), Run: c07WriteFaultsBig},
 				{Name: "corrupt-headers", N: (len(c07HSizes) + 2) * (len(c07BSizes) + 3), Run: c07CorruptHeaders},
-				{Name: "random-bytes", N: c.Pick(100000, 8000000), Run: c07RandomBytes},
+				{Name: "random-bytes", Env: 10, N: c.Pick(100000, 8000000), Run: c07RandomBytes},
 			}
 		},
 	})
@@ -89,6 +89,27 @@ func c07Unmarshal(cr *chunkReader, into proto.Message) (o c07Out) {
 		o.cons = cr.delivered
 	}()
 	o.n, o.ver, o.err = pbcmpl.Unmarshal(cr, into)
+	return
+}
+
+func c07UnmarshalStd(sr stdReader, into proto.Message) (o c07Out) {
+	defer func() {
+		if r := recover(); r != nil {
+			o.pan = fmt.Sprint(r)
+		}
+		o.cons = sr.consumed()
+	}()
+	o.n, o.ver, o.err = pbcmpl.Unmarshal(sr.r, into)
+	return
+}
+
+func c07ReadHeaderStd(sr stdReader) (n int64, h pbcmpl.Header, err error, pan string) {
+	defer func() {
+		if r := recover(); r != nil {
+			pan = fmt.Sprint(r)
+		}
+	}()
+	n, h, err = pbcmpl.ReadHeader(sr.r)
 	return
 }
 
@@ -147,6 +168,55 @@ func c07Cuts(w *mon.W, idx int) {
 				if !ueof {
 					w.Fail("cut/cause-not-ErrUnexpectedEOF", d())
 					return
+				}
+			}
+			// the same cut through reader types of the standard library (two per cut point, rotating)
+			if mode == modes[0] {
+				stds := stdReaders(frame[:k])
+				for j := 0; j < 2; j++ {
+					sr := stds[(2*k+idx+j)%len(stds)]
+					w.Op = "Unmarshal(cut," + sr.name + ")"
+					so := c07UnmarshalStd(sr, c.empty())
+					ev++
+					bad := ""
+					switch {
+					case so.pan != "":
+						bad = "panic"
+					case so.err == nil:
+						bad = "success-on-strict-prefix"
+					case int(so.n) != k || (so.cons >= 0 && so.cons != k):
+						bad = "count"
+					case k == 0 && !pbIs(so.err, io.EOF):
+						bad = "k=0-not-EOF"
+					case k == 32 && bodyLen > 0 && !pbIs(so.err, io.EOF) && !pbIs(so.err, io.ErrUnexpectedEOF):
+						bad = "k=32-cause"
+					case k != 0 && !(k == 32 && bodyLen > 0) && !pbIs(so.err, io.ErrUnexpectedEOF):
+						bad = "cause-not-ErrUnexpectedEOF"
+					}
+					if bad != "" {
+						w.Fail("cut/std-reader/"+bad, mon.D{"reader_type": sr.name, "kind": pbKindNames[c.Kind], "body_len": bodyLen, "cut_k": k, "returned_n": so.n, "err": errStr(so.err), "panic": so.pan, "reader_consumed": so.cons})
+						return
+					}
+					sr2 := stdReaders(frame[:k])[(2*k+idx+j)%len(stds)]
+					w.Op = "ReadHeader(cut," + sr2.name + ")"
+					hn, h, herr, hp := c07ReadHeaderStd(sr2)
+					ev++
+					okH := false
+					cons := sr2.consumed()
+					switch {
+					case hp != "":
+					case k == 0:
+						okH = hn == 0 && pbIs(herr, io.EOF)
+					case k < 32:
+						okH = int(hn) == k && pbIs(herr, io.ErrUnexpectedEOF) && (cons < 0 || cons == k)
+					default:
+						okH = hn == 32 && herr == nil && h != nil && h.GetHeaderSize() == 32 && h.GetBodySize() == int64(bodyLen) && h.GetVersion() == c.expVer() && (cons < 0 || cons == 32)
+					}
+					if !okH {
+						w.Fail("cut/std-reader/ReadHeader", mon.D{"reader_type": sr2.name, "cut_k": k, "n": hn, "err": errStr(herr), "panic": hp, "reader_consumed": cons})
+						return
+					}
+					w.Bucket("cut/std-reader")
 				}
 			}
 			// ReadHeader on the same prefix
